@@ -138,6 +138,50 @@ def moving(u, rep, op, shape, axis, w, dtype, timeout):
         if not H.untouched(X):
             rep.obligation('frame[%s: data not written]' % tag, fn, 'frame', dict(result='sat', backend='frame-scan', secs=0)); rep.violation('frame[%s: data not written]' % tag, fn, 'the caller\'s array is modified', case, None, *native(case))
 
+def moving_sum_inv(u, rep, rank, axis, dtype, timeout):
+    """moving_sum / moving_mean with EVERY extent and the window symbolic: out[.., j, ..] == PX(j + w) - PX(j) where PX(k) = sum_{i<k} x[.., i, ..] is the
+    prefix sum of the data along the axis (PX(0) = 0, PX(k+1) = PX(k) + x[k]) -- i.e. the sum of the w samples j .. j+w-1 (interval split, lemmas/Sums.lean).
+    The code pads, takes a cumulative sum (a prefix-sum function PS of the PADDED row) and subtracts; the bridge PS(k+1) == PX(k) is an induction lemma
+    discharged as two obligations (base, step)."""
+    fn = MO + '::moving_sum'; tag = 'moving_sum/mean, rank %d, axis %d, %s, length and window symbolic' % (rank, axis, dtype)
+    case = dict(kind='moving', op='sum', shape=[7] * rank, axis=axis, w=3, dtype=dtype)
+    def body():
+        sums.USED.clear()
+        dims = [core.sym_int('D%d' % a, 2 if a == axis % rank else 1) for a in range(rank)]; Ln = dims[axis % rank]
+        w = core.sym_int('w', 2); core.assume(w.z <= Ln.z)
+        X = inp('X', tuple(dims), dtype); pre = symnp.ndarray.fresh(X.shape, X.snapshot(), X.dtype)
+        out = u.mo.moving_sum(X, w, axis); mean = u.mo.moving_mean(X, w, axis)
+        j = z3.Int('j!'); others = [z3.Int('o%d!' % a) for a in range(rank)]
+        core.assume(z3.And(j >= 0, j <= Ln.z - w.z, *[z3.And(o >= 0, o < dims[a].z) for a, o in enumerate(others) if a != axis % rank]))
+        idx = [SInt(j) if a == axis % rank else SInt(others[a]) for a in range(rank)]
+        ov = rv(out.at(*idx)); mv = rv(mean.at(*idx))
+        xat = lambda k: rv(pre.at(*[SInt(k) if a == axis % rank else SInt(others[a]) for a in range(rank)]))
+        PX = z3.Function('PX', z3.IntSort(), z3.RealSort())
+        used = [(ent, app) for ent, app in sums.USED]
+        ok_shape = out.ndim == rank and all(H.structurally_equal([out.shape[a]], [dims[a]]) for a in range(rank) if a != axis % rank)
+        loops_ = __import__('pyvc.loops', fromlist=['x'])
+        loops_.oblige('post[%s: shape -- the axis shrinks to length - w + 1, other dimensions preserved]' % tag, 'post', z3.And(z3.BoolVal(bool(ok_shape)), zi(out.shape[axis % rank]) == Ln.z - w.z + 1))
+        # induction lemma PS(k+1) == PX(k), 0 <= k <= L, for every prefix-sum function of the padded row that the result mentions
+        k = z3.Int('k!'); facts = []
+        for ent, app in used:
+            params = list(app.children())[1:]; PS = lambda n_: ent['uf'](n_, *params)
+            base = [sums.base(ent, params), sums.unfold(ent, z3.IntVal(0), params), PX(0) == 0]
+            loops_.oblige('lemma[%s: prefix sum of the padded row at 1 is the empty prefix sum of the data (base)]' % tag, 'lemma', z3.Implies(z3.And(*base), PS(z3.IntVal(1)) == PX(0)))
+            step = [sums.unfold(ent, k + 1, params), PX(k + 1) == PX(k) + xat(k), k >= 0, k < Ln.z, PS(k + 1) == PX(k)]
+            loops_.oblige('lemma[%s: prefix sum of the padded row at k+2 is the prefix sum of the data at k+1 (step)]' % tag, 'lemma', z3.Implies(z3.And(*step), PS(k + 2) == PX(k + 1)))
+            facts += [PS(j + w.z + 1) == PX(j + w.z), PS(j + 1) == PX(j)]      # the lemma at the two points the result reads (both <= L)
+        loops_.oblige('post[%s: out[j] == PX(j + w) - PX(j), the sum of samples j .. j+w-1]' % tag, 'post', z3.Implies(z3.And(*facts) if facts else z3.BoolVal(False), z3.And(fin(out.at(*idx)), ov == PX(j + w.z) - PX(j))))
+        loops_.oblige('post[%s: moving_mean == that sum / w]' % tag, 'post', z3.Implies(z3.And(*facts) if facts else z3.BoolVal(False), mv * z3.ToReal(w.z) == PX(j + w.z) - PX(j)))
+        return len(used)
+    for p, outc, exc in core.explore(body):
+        if exc is not None:
+            rep.obligation('post[%s]' % tag, fn, 'post', dict(result='sat', backend='exec', secs=0), sample=repr(exc)); rep.violation('post[%s]' % tag, fn, 'raises %r' % (exc,), case, None, *native(case)); continue
+        if not outc: rep.errors.append('%s: the result mentions no prefix sum (the contract does not apply to this code shape)' % tag)
+        for ob in p.obligations:
+            res = solve.discharge(ob['pc'], ob['goal'], timeout_ms=timeout)
+            rep.obligation(ob['name'], fn, ob['kind'], res, sample='length, window and the other extents symbolic')
+            if res['result'] == 'sat': rep.violation(ob['name'], fn, ob['name'], case, str(res['model'])[:400], *native(case))
+
 # --------------------------------------------------------------------------- pattern detection
 def abstract_lemmas(rep, timeout):
     """the last step from the ring identities to the property's wording, over abstract reals"""
@@ -338,6 +382,7 @@ def main():
                 if n > 3 or (n == 1 and op in ('correlation', 'bcdc')): continue      # a one-sample pattern has zero variance: correlation / bcdc undefined
                 units.append(('pattern', op, Lt, n, 'float64'))
         units.append(('pattern', op, 3, 2, 'int16'))
+    units += [('msinv', 1, -1, 'float64'), ('msinv', 1, 0, 'float32'), ('msinv', 2, 0, 'float64'), ('msinv', 2, 1, 'float64'), ('msinv', 3, 1, 'float32'), ('msinv', 1, 0, 'uint8')]
     units += [('pad', (2,), (4,)), ('pad', (2, 2), (3, 4)), ('pad', (1, 2, 1), (2, 3, 2)), ('pad', (3,), (3,))]
     units += [('extract', 6, 2, 1, 1), ('extract', 7, 3, 2, 0), ('extract', 5, 1, 0, 2), ('extract', 5, 2, 0, 0)]
     for Ld in ((1, 2, 3, 4, 5) if q else (1, 2, 3, 4, 5, 6, 7)):
@@ -350,7 +395,7 @@ def main():
                 if bound != 'none' and Ld > (5 if q else 6): continue
                 units.append(('width', Ld, direction, bound))
     def work(sub, kind, *args):
-        {'moving': moving, 'pattern': pattern, 'pad': pad_case, 'extract': extract_case, 'peaks': peaks, 'width': width}[kind](u, sub, *args, timeout)
+        {'msinv': moving_sum_inv, 'moving': moving, 'pattern': pattern, 'pad': pad_case, 'extract': extract_case, 'peaks': peaks, 'width': width}[kind](u, sub, *args, timeout)
     heavy = [x for x in units if x[0] in ('peaks', 'width')]; light = [x for x in units if x[0] not in ('peaks', 'width')]
     groups = [(x,) for x in sorted(heavy, key=lambda x: -x[1])] + [tuple(light[i:i + 6]) for i in range(0, len(light), 6)]
     def wg(sub, *g):
